@@ -1,18 +1,22 @@
 #!/bin/bash
-# Applies every seeded change under /verif/seeded to /repo (one at a time, reverted afterwards), runs the quick
-# check of its property and reports whether an unlisted VIOLATION was raised. Evidence/replays of these runs go
-# to /tmp/verif-mutant-out. Usage: run_all_seeded.sh [name-prefix]
+# Runs every seeded change under /verif/seeded (one scratch copy of /repo per change, see try_patch.sh; /repo itself
+# is not touched) against the quick check of its property and reports whether an unlisted VIOLATION was raised.
+# Evidence/replays of these runs go to /tmp/verif-mutant-out. Usage: [PAR=n] run_all_seeded.sh [name-prefix]
 cd /verif || exit 2
-ok=0; missed=0
-for d in seeded/${1}*/; do
+one() {
+  d=$1
   name=$(basename "$d")
   prop=$(python3 -c "import json;print(json.load(open('$d/meta.json'))['property'])")
-  out=$(selftest/try_patch.sh "/verif/$d/patch.diff" "$prop" 2>&1)
+  out=$(LINES_MAX=60 selftest/try_patch.sh "/verif/$d/patch.diff" "$prop" 2>&1)
   if echo "$out" | grep -q "^VIOLATION property=$prop"; then
-    echo "CAUGHT  $name by $prop: $(echo "$out" | grep -m1 signature | sed 's/^ *//')"; ok=$((ok+1))
+    echo "CAUGHT  $name by $prop: $(echo "$out" | grep -m1 signature | sed 's/^ *//')"
   else
-    echo "MISSED  $name by $prop: $(echo "$out" | tail -1)"; missed=$((missed+1))
+    echo "MISSED  $name by $prop: $(echo "$out" | tail -1)"
   fi
-done
+}
+export -f one
+res=$(ls -d seeded/${1}*/ | xargs -P "${PAR:-1}" -I{} bash -c 'one {}')
+echo "$res" | sort -k2
+ok=$(echo "$res" | grep -c "^CAUGHT"); missed=$(echo "$res" | grep -c "^MISSED")
 echo "caught=$ok missed=$missed"
 [ "$missed" = 0 ]
